@@ -35,6 +35,13 @@ pub struct Case {
     /// leaves them)
     #[serde(default)]
     pub via_new: bool,
+    /// (sequence, start, length): runs overwritten with the wildcard after expansion, each at least `width` long -
+    /// masked regions (repeats, low complexity), so that whole windows consist of wildcards
+    #[serde(default)]
+    pub masked: Vec<(usize, usize, usize)>,
+    /// `SamplerBuilder::temperature`, when set (the sampler is then built through the builder in Oops mode too)
+    #[serde(default)]
+    pub temperature: Option<Fl>,
 }
 
 pub struct Trace;
@@ -72,7 +79,18 @@ where
 {
     let k = case.abc.k();
     let width = case.width;
-    let seqs: Vec<Vec<u8>> = case.seqs.iter().map(|s| s.expand(k)).collect();
+    let mut seqs: Vec<Vec<u8>> = case.seqs.iter().map(|s| s.expand(k)).collect();
+    for &(i, start, len) in &case.masked {
+        if !seqs.is_empty() {
+            let s = &mut seqs[i % case.seqs.len()];
+            let start = start % s.len();
+            let end = (start + len).min(s.len());
+            for x in s[start..end].iter_mut() {
+                *x = (k - 1) as u8;
+            }
+        }
+    }
+    let seqs = seqs;
     let striped: Vec<StripedSequence<A, U32>> = seqs
         .iter()
         .map(|s| {
@@ -85,10 +103,20 @@ where
     let _g = case.arm.force();
     let rng = StdRng::seed_from_u64(case.rng_seed);
     let mut sampler: Sampler<'_, StdRng, A, &Vec<StripedSequence<A, U32>>, U32> = match &case.mode {
-        Mode::Oops => Sampler::new(&data, width, rng),
+        Mode::Oops => match case.temperature {
+            None => Sampler::new(&data, width, rng),
+            Some(t) => {
+                let mut b = SamplerBuilder::new(&data);
+                b.width(width).mode(SamplerMode::Oops).temperature(t.0 as f64);
+                b.sample(rng)
+            }
+        },
         Mode::Zoops { seeds, inertia, patience } => {
             let mut b = SamplerBuilder::new(&data);
             b.width(width).mode(SamplerMode::Zoops).seeds(*seeds);
+            if let Some(t) = case.temperature {
+                b.temperature(t.0 as f64);
+            }
             if let Some(i) = inertia {
                 b.inertia(*i);
             }
@@ -224,7 +252,7 @@ impl Sub for Trace {
         "trace"
     }
     fn rule(&self) -> &'static str {
-        "DNA / protein dataset of 2..12 sequences (lengths width+1..~120, occasional wildcards; striped from text or, 1 in 4, built through StripedSequence::new with arbitrary symbols in the unused cells, as StripedSequence::sample leaves them) x width 1..20 x mode Oops or Zoops (seeds 2..n, inertia, patience) x StdRng seed x 1..300 steps x forced dispatcher arm; after construction and after EVERY step count_matrix, background, starts and Iteration.counts are recomputed from the reported alignment; the whole run is repeated and the two traces (z, counts, pssm bits, active set, starts) must be identical; non-trivial = >= 50 steps with a changed start (and an inclusion in Zoops)"
+        "DNA / protein dataset of 2..12 sequences (lengths width+1..~120, occasional wildcards, and in a third of the datasets masked regions - wildcard runs of width..width+40 symbols - in some of the sequences; striped from text or, 1 in 4, built through StripedSequence::new with arbitrary symbols in the unused cells, as StripedSequence::sample leaves them) x width 1..20 x mode Oops or Zoops (seeds 2..n, inertia, patience) x SamplerBuilder::temperature unset or one of {0, 0.25, 0.5, 1, 2, 10} x StdRng seed x 1..300 steps x forced dispatcher arm; after construction and after EVERY step count_matrix, background, starts and Iteration.counts are recomputed from the reported alignment; the whole run is repeated and the two traces (z, counts, pssm bits, active set, starts) must be identical; non-trivial = >= 50 steps with a changed start (and an inclusion in Zoops)"
     }
     fn cases(&self, tier: Tier) -> u64 {
         tier.pick(8_000, 200_000)
@@ -251,10 +279,15 @@ impl Sub for Trace {
                     mode,
                     any::<u64>(),
                     prop_oneof![1 => 1usize..=20, 3 => 50usize..=300],
-                    (arm_strategy(), prop_oneof![3 => Just(false), 1 => Just(true)]),
+                    (
+                        arm_strategy(),
+                        prop_oneof![3 => Just(false), 1 => Just(true)],
+                        prop_oneof![2 => Just(Vec::new()), 1 => proptest::collection::vec((0usize..n, any::<usize>(), width..=width + 40), 1..=n)],
+                        prop_oneof![3 => Just(None), 2 => proptest::sample::select(vec![0.0f32, 0.25, 0.5, 1.0, 2.0, 10.0]).prop_map(|t| Some(Fl(t)))],
+                    ),
                 )
             })
-            .prop_map(|(abc, width, seqs, extra_wrap, mode, rng_seed, steps, (arm, via_new))| Case { abc, width, seqs, extra_wrap, mode, rng_seed, steps, arm, via_new })
+            .prop_map(|(abc, width, seqs, extra_wrap, mode, rng_seed, steps, (arm, via_new, masked, temperature))| Case { abc, width, seqs, extra_wrap, mode, rng_seed, steps, arm, via_new, masked, temperature })
             .boxed()
     }
     fn check(&self, case: &Case, _cx: &Cx) -> Verdict {
@@ -267,6 +300,9 @@ impl Sub for Trace {
         });
         info.class(case.arm.name());
         info.class_if(case.via_new, "dataset-built-by-StripedSequence::new(arbitrary-padding)");
+        info.class_if(!case.masked.is_empty(), "masked-regions(wildcard-runs>=width)");
+        info.class_if(case.temperature.is_some(), "temperature-set-through-the-builder");
+        info.class_if(case.temperature.map_or(false, |t| t.0 == 0.0), "temperature=0");
         let r = with_abc!(case.abc, A => {
             match run::<A>(case, &mut info) {
                 Err(f) => Err(f),
